@@ -74,6 +74,7 @@ Proof.
     + injection Hn as <-. discriminate.
     + destruct e; discriminate.
   - intros x H. discriminate.
+  - intros e en Hn H. discriminate.
   - simpl. lia.
   - intros e en Hn. destruct e as [|[|e]]; simpl in Hn.
     + injection Hn as <-. split; [unfold maxchg, chgv; simpl; lia|]. intros sd. destruct sd; simpl; lia.
@@ -85,4 +86,5 @@ Proof.
   - intros sd k Hk Hlt. rewrite Hheap in Hlt. lia.
   - intros sd k cs H. destruct sd; discriminate.
   - intros e sd He. simpl in He. unfold getx. destruct e as [|[|e]]; [lia|lia|]. simpl. destruct e, sd; reflexivity.
+  - intros e en sd He Hn. exfalso. destruct e as [|[|e]]; [lia|lia|]. destruct e; discriminate.
 Qed.
